@@ -17,7 +17,10 @@ RULE = ("Each shard keeps 3 persistent worker PROCESSES started with distinct PY
         "per process: at, _normalize, 6 numeric derivative routes (early and late) and 2 as_expression routes (forward and reverse symbolic) for up to 3 variables, repr.  "
         "Oracle: all processes' answers are identical byte for byte (float.hex of numbers, repr of expressions, exception "
         "class names).  Non-trivial = >= 3 variables occur and some answer is an expression or a gradient component of a "
-        "multi-variable expression; distinct by SHA-1 of (canonical model, point).")
+        "multi-variable expression; distinct by SHA-1 of (canonical model, point).  Part 'order-sensitive': sums / products of "
+        "3-7 terms with generic, partly cancelling float coefficients and equal-but-distinct repeated terms (any change of "
+        "combination order changes bits); part 'incomplete': points lacking >= 2 variables (the message of the library's "
+        "own CoordinateMissing / DomainError, i.e. which coordinate or sub-expression it names, is part of the answer).")
 ASSUMPTIONS = ["covers the hash seeds actually run (reported in the evidence), not all 2^32",
                "worker processes import smoothmath from the same working tree as the parent"]
 
@@ -182,9 +185,65 @@ def make_extreme(stats):
     return test
 
 
+GENERIC = [0.1, 0.2, 0.3, 0.7, 1.1, 1 / 3, 1e-3, 2.5, 1e16, -1e16, 1.0, -0.1, 3.3, 1e-17]
+
+
+def make_order_sensitive(stats):
+    """Sums and products of 3-7 terms with generic (non-dyadic, partly cancelling) float coefficients over one or two
+    of the variables, some terms repeated as equal-but-distinct objects: floating-point addition and multiplication
+    are not associative, so ANY change in the order in which terms or contributions are combined changes bits."""
+    @given(st.data())
+    def test(data):
+        k = data.draw(st.integers(3, 4))
+        names = draw_names(data, k)
+        main = data.draw(st.sampled_from(names))
+
+        def term():
+            v = ("Variable", main if data.draw(st.integers(0, 2)) else data.draw(st.sampled_from(names)))
+            c = ("Constant", data.draw(st.sampled_from(GENERIC)))
+            f = data.draw(st.sampled_from(["v", "v", "sq", "sin", "exp", "recip"]))
+            fv = {"v": v, "sq": ("NthPower", v, 2), "sin": ("Sine", v), "exp": ("Exponential", v, 2), "recip": ("Reciprocal", v)}[f]
+            return data.draw(st.sampled_from([("Multiply", (c, fv)), ("Multiply", (fv, c)), ("Divide", fv, c), fv]))
+        terms = [term() for _ in range(data.draw(st.integers(3, 6)))]
+        for _ in range(data.draw(st.integers(0, 2))):
+            t = data.draw(st.sampled_from(terms))
+            terms.insert(data.draw(st.integers(0, len(terms))), M.clone(t))      # an equal but distinct object
+        tag = data.draw(st.sampled_from(["Add", "Add", "Multiply"]))
+        m = (tag, tuple(terms))
+        w = data.draw(st.integers(0, 3))
+        if w == 0:
+            m = ("Multiply", (("Variable", data.draw(st.sampled_from(names))), m))
+        elif w == 1:
+            m = ("Add", (m, ("Multiply", tuple(("Variable", n) for n in names))))
+        point = {n: data.draw(st.sampled_from([0.1, 0.7, 1.3, -2.3, 3.0, 1e-3, 12.7, 0.9999999])) for n in names}
+        orders = [{"point": list(data.draw(st.permutations(names))), "creation": list(data.draw(st.permutations(names)))}
+                  for _ in range(NWORKERS + 1)]
+        stats.count("order-sensitive-cases")
+        check(stats, m, names, point, orders, sub="order-sensitive")
+    return test
+
+
+def make_incomplete(stats):
+    """Points lacking two or more of the variables: which coordinate the library reports as missing (and whether a
+    DomainError met earlier wins) must not depend on the hash seed either."""
+    @given(st.data())
+    def test(data):
+        k = data.draw(st.integers(3, 6))
+        names = draw_names(data, k)
+        m = data.draw(st.one_of(S.covering(names, depth=1), S.expressions(names, depth=2)))
+        present = data.draw(st.lists(st.sampled_from(names), unique=True, min_size=0, max_size=max(0, k - 2)))
+        point = {n: data.draw(st.sampled_from([0, 1, 2.5, -1, 0.5])) for n in present}
+        orders = [{"point": list(data.draw(st.permutations(present))), "creation": list(data.draw(st.permutations(names)))}
+                  for _ in range(NWORKERS + 1)]
+        stats.count("incomplete-point-cases")
+        check(stats, m, names, point, orders, sub="incomplete")
+    return test
+
+
 def parts(tier):
     n = 1000 if tier == "quick" else 30000
-    return [hyp_part("general", make_general, int(n * 0.7)), hyp_part("extreme", make_extreme, int(n * 0.3))]
+    return [hyp_part("general", make_general, int(n * 0.5)), hyp_part("extreme", make_extreme, int(n * 0.2)),
+            hyp_part("order-sensitive", make_order_sensitive, int(n * 0.3)), hyp_part("incomplete", make_incomplete, int(n * 0.2))]
 
 
 def replay(case):
